@@ -42,7 +42,7 @@ func propC02(ch core.Chooser, st *core.Stats) error {
 	}
 	defer h.close()
 	h.switchFS = true
-	err = h.phases(core.Scale(10, 16), core.Scale(400, 1500), []int{5, 2, 5, 2, 4, 2, 2})
+	err = h.phases(core.Scale(10, 16), core.Scale(400, 1500), []int{5, 2, 5, 2, 4, 2, 2, 3})
 	if err != nil {
 		return err
 	}
